@@ -105,6 +105,21 @@ def spec_of(radixes: list[int], ops: list) -> dict:
     return {'radixes': list(radixes), 'ops': [list(o) for o in ops]}
 
 
+def with_retag(specs: list) -> list:
+    """Each spec that holds a parameterised CircuitGate block once more with
+    the circuit re-parameterised after it was built (spec['retag'])."""
+    def has_param_block(ops: list) -> bool:
+        for o in ops:
+            if o[0] == '@block' and any(
+                    (len(x) > 2 and x[0] != '@block' and x[2])
+                    or (x[0] == '@block' and has_param_block([x]))
+                    for x in o[2]):
+                return True
+        return False
+    return specs + [dict(s, retag=True) for s in specs
+                    if has_param_block(s['ops'])]
+
+
 def g3(seed: int, k: int = 0) -> list[float]:
     return [generic(seed, k), generic(seed, k + 1), generic(seed, k + 2)]
 
@@ -420,7 +435,7 @@ def dom_blocks(tier: str, seed: int, opts: dict) -> list[dict]:
         ['CNOT', [1, 2], []],
         ['U3', [0], g3(seed, 5)],
     ]
-    return [spec_of([2, 2, 2], s) for s in seqs(alpha, L)]
+    return with_retag([spec_of([2, 2, 2], s) for s in seqs(alpha, L)])
 
 
 def _bc_opts(tier: str, seed: int) -> list[dict]:
@@ -588,7 +603,7 @@ def dom_extend(tier: str, seed: int, opts: dict) -> list[dict]:
     out = [spec_of([2, 2, 2], s) for s in seqs(alpha, L)]
     out.append(spec_of([2], [['@block', [0], [['H', [0], []]]]]))
     out.append(spec_of([2, 2], [['@block', [0], [['H', [0], []]]]]))
-    return out
+    return with_retag(out)
 
 
 def _extend_min(opts: dict) -> int | None:
